@@ -78,14 +78,14 @@ func (c Cmd) text(trace string, withVar bool) string {
 }
 
 type expect struct {
-	trace     []string // required tokens in order
-	optional  []string // may follow: after-hooks behind a failing after-hook
-	stdout    []string // S tokens of the commands (hooks write to the runner's stdout as well)
-	skipped   bool
-	failed    bool // Run returns an error
-	errored   bool // a command failed without allow_failure
-	exit      int
-	exitKnown bool
+	trace        []string // required tokens in order
+	optional     []string // may follow: after-hooks behind a failing after-hook
+	stdout       []string // S tokens of the commands (hooks write to the runner's stdout as well)
+	skipped      bool
+	failed       bool // Run returns an error
+	errored      bool // a command failed without allow_failure
+	exit         int
+	exitKnown    bool
 	beforeFailed bool
 }
 
